@@ -183,7 +183,21 @@ class World:
         ev = {"op": "make", "d": d, "kind": kind, "fam": fam, "sig": "%s%s%s/%s/%s" % (fam, "+ghi" if ghi else "", "+supp" if supp else "", kind, name), "wx": "%s%s%s/%s" % (("h" if fam in ("hourly", "caltrack") else "d"), "g" if ghi else "", "s" if supp else "", name),
               "obs": obs, "entry": entry, "ext_before": before, "tz": "", "dq": [], "warn": [], "fullcal": False}
         try:
-            if entry == "series" and hasattr(cls, "from_series"):
+            if entry == "series_utc" and hasattr(cls, "from_series"):
+                # the weather feed arrives in UTC (its own Series, owned by the caller); without usage the reporting classes are told
+                # the meter's zone - the documented from_series(None, temperature, tzinfo=...) usage
+                temp = frame["temperature"].copy()
+                temp.index = temp.index.tz_convert("UTC")
+                self.ext[d] = temp
+                ev["sig"] += "+utcfeed"          # not claimed to be the same data object as the one built from the frame
+                ev["wx"] += "+utcfeed"
+                ev["ext_before"] = hash_frame(temp)
+                meter = frame["observed"] if "observed" in frame.columns else None
+                if meter is None and kind == "reporting":
+                    obj = cls.from_series(None, temp, tzinfo=frame.index.tz, **kw)
+                else:
+                    obj = cls.from_series(meter, temp, **kw)
+            elif entry == "series" and hasattr(cls, "from_series"):
                 meter = frame["observed"] if "observed" in frame.columns else None
                 obj = cls.from_series(meter, frame["temperature"], **kw)
             else:
@@ -261,6 +275,8 @@ class World:
             ev["rows_ok"] = bool(res.index.equals(obj.df.index))
             # probe vector: predictions at up to 48 timestamps of the caller's frame, "missing" where none was produced
             ext = self.ext[d]
+            if isinstance(ext, pd.Series):          # a feed handed over as a Series of its own (entry series_utc)
+                ext = ext.to_frame(name="temperature")
             src = pd.DatetimeIndex(ext["datetime"]) if "datetime" in ext.columns else ext.index      # timestamps handed over as a column
             k = min(len(src), 96)
             pos = set(int(round(x)) for x in np.linspace(0, len(src) - 1, k))
